@@ -43,12 +43,9 @@ def ctl : Controller Ctl :=
 
 def world : World Ctl := ⟨Gen.Syntax.table, Gen.Tags.cfg, ctl⟩
 
-def hasBom (b : Bytes) : Bool :=
-  b.take 3 == [0xEF, 0xBB, 0xBF] || b.take 2 == [0xFF, 0xFE] || b.take 2 == [0xFE, 0xFF]
-
-/-- a string returned by a read accessor whose source bytes are `src` and whose (bijectively decoded)
-bytes would be `b`: `B` marks the BOM-sniffing decode the byte-level model does not follow -/
-def showStr (b src : Bytes) : String := if hasBom src then "B" else hexOrDash b
+/-- a string returned by a read accessor: the hex of its (bijectively decoded) windows-1252 bytes. The accessors
+decode without BOM handling (base/bytes.rs `as_string`), so the bytes are what the handler reads. -/
+def showStr (b : Bytes) : String := hexOrDash b
 
 def nsNum : Ns → Nat | .html => 0 | .svg => 1 | .mathml => 2
 def b01 (b : Bool) : String := if b then "1" else "0"
@@ -57,13 +54,12 @@ def attrStr (a : Bytes × Bytes) (loc : Option (Range × Range)) : String :=
   let l := match loc with
     | some (n, v) => s!"{n.start}-{n.end}/{v.start}-{v.end}"
     | none => "N/N"
-  let hb (s : Bytes) := if loc.isSome then s else []
-  s!"{showStr (asciiLowerBytes a.1) (hb a.1)}~{showStr a.1 (hb a.1)}={showStr a.2 (hb a.2)}@{l}"
+  s!"{showStr (asciiLowerBytes a.1)}~{showStr a.1}={showStr a.2}@{l}"
 
 def queryStr (attrs : AttrsApi.AttrList) (q : Bytes) : String :=
   let g := match AttrsApi.getAttribute attrs q with
     | none => "N"
-    | some v => showStr v v
+    | some v => showStr v
   s!"g{g}h{b01 (AttrsApi.hasAttribute attrs q)}"
 
 def tokenAttrs : Token → AttrsApi.AttrList
